@@ -50,6 +50,13 @@ def wild_link(argv, cwd):
     member is re-run as a real subprocess)."""
     procs = _server_procs()
     rc, msg = wildrun.server_link(argv, cwd=cwd)
+    for _retry in range(3):
+        if rc in (0, 1, 101):
+            break
+        # The server died of a signal or timed out: on this shared box that is somebody else's
+        # kill / overload, not wild. The next request starts a fresh server.
+        procs = _server_procs()
+        rc, msg = wildrun.server_link(argv, cwd=cwd)
     if rc != 101:
         return rc, msg
     text = ""
